@@ -14,6 +14,8 @@ import cloudsync.exceptions as ex
 PROP = "C16"
 SIZES = {"0": b"", "s": b"0123456789", "m": bytes(range(256)) * 6, "L": bytes(range(251)) * 12 + b"tail"}
 SIZES2 = {"0": b"", "s": b"abcdefghij", "m": bytes(range(255, -1, -1)) * 6, "L": bytes(range(251)) * 12 + b"TAIL"}
+# same first and last KiB as "L", different middle: only a full read can tell them apart (hash caches keyed on head/tail)
+SIZES["L2"] = SIZES2["L2"] = SIZES["L"][:1500] + b"#" + SIZES["L"][1501:]
 PATHS = ["/a", "/A", "/b", "/d", "/d/a", "/é.x"]
 _counter = itertools.count()
 
@@ -25,13 +27,17 @@ def configs(tier):
          {"name": "mock_path_cs", "kind": "mock", "oid_is_path": True, "cs": True},
          {"name": "mock_oid_ci", "kind": "mock", "oid_is_path": False, "cs": False},
          {"name": "mock_path_ci", "kind": "mock", "oid_is_path": True, "cs": False},
-         {"name": "filesystem", "kind": "fs", "oid_is_path": True, "cs": True}]
+         {"name": "filesystem", "kind": "fs", "oid_is_path": True, "cs": True},
+         # deeper, narrow alphabet aimed at the hash cache: two >2 KiB contents that differ only in the middle
+         {"name": "filesystem_fasthash", "kind": "fs", "oid_is_path": True, "cs": True, "alpha": "fasthash"}]
     return c
 
 
 def depth(tier, cfg):
+    if cfg.get("alpha") == "fasthash":
+        return 5 if tier == "quick" else 6
     if cfg["kind"] == "fs":
-        return 2 if tier == "quick" else 3
+        return 3 if tier == "quick" else 4
     return 3 if tier == "quick" else 4
 
 
@@ -40,6 +46,11 @@ def cap(tier):
 
 
 def alphabet(cfg):
+    if cfg.get("alpha") == "fasthash":
+        return [["create", "/a", "L"], ["create", "/b", "L2"], ["create", "/d/a", "L2"], ["mkdir", "/d"], ["mkdir", "/e"],
+                ["rename", "/a", "/b"], ["rename", "/b", "/a"], ["rename", "/a", "/d/a"], ["rename", "/d", "/e"],
+                ["rename", "/e", "/d"], ["upload", "/a", "L2"], ["upload", "/b", "m"], ["delete", "/a"], ["delete", "/b"],
+                ["delete", "/d/a"], ["delete", "/d"]]
     ops = []
     files = ["/a", "/A", "/b", "/d/a", "/é.x"]
     for p in files:
@@ -251,17 +262,18 @@ def apply(st, op, check):
             mutated = (oid, False)
     else:
         raise ValueError(k)
-    if not check:
-        if st.cfg["kind"] == "mock":
-            for _ in p.events():
-                pass
+    if not check and st.cfg["kind"] == "mock":
+        for _ in p.events():
+            pass
         return []
+    # (filesystem: the read sweep also runs while a prefix is replayed - reads fill the provider's hash cache, so they are
+    #  part of the explored call sequence; bad() only records when check is set)
     if got != want:
         bad("result-class", "%s:%s!=%s" % (k, got, want), got=got, want=want)
         if got == OK or want == OK:
             return vs           # model and provider have diverged; later comparisons would only echo this
     # ---- consistency sweep: info / exists / listdir / download / hash agree with the model
-    for path in PATHS + ["/x", "/d/b"]:
+    for path in PATHS + ["/x", "/d/b", "/e", "/e/a"]:
         e = m.get(path)
         g, info = _do(p.info_path, path)
         g2, ex_p = _do(p.exists_path, path)
@@ -335,12 +347,31 @@ def dump(st):
 
     def R(o):
         if st.cfg["oid_is_path"]:
+            if st.dir and isinstance(o, str) and o.startswith(st.dir):
+                return o[len(st.dir):]          # the scratch directory name differs per rebuilt state
             return o
         if o not in ren:
             ren[o] = len(ren)
         return ren[o]
+    hidden = ()
+    if st.dir:
+        # hidden provider state that later answers depend on: the hash cache (entry per path: hashes and how its recorded
+        # modification time compares with the files now on disk)
+        times = {}
+        for q, v in m.t.items():
+            if v["type"] == "F":
+                try:
+                    times[("f", q)] = os.stat(st.p.join(st.dir, v["path"])).st_mtime
+                except OSError:
+                    pass
+        cache = {}
+        for k, ci in getattr(st.p, "_hash_cache", {}).items():
+            times[("c", R(k))] = ci.mtime
+            cache[R(k)] = (ci.qhash, ci.fhash)
+        rank = {t: i for i, t in enumerate(sorted(set(times.values())))}
+        hidden = (tuple(sorted((k, rank[t]) for k, t in times.items())), tuple(sorted(cache.items())))
     return (tuple(sorted((q, v["path"], v["type"], v["content"], R(v["oid"])) for q, v in m.t.items())),
-            tuple(R(o) for o in m.dead_oids[-1:]))
+            tuple(R(o) for o in m.dead_oids[-1:]), hidden)
 
 
 def extra_checks(tier):
